@@ -39,6 +39,13 @@ func c13(c *q.Ctx) {
 		c.Then(mn, q.ToCall("Miner.truncateForMiner"), q.ToCall("Ledger.GetMeta"), q.ToCall("Miner.packBlock"), nil, "after a truncation the trunk height is read again before the block is packed")
 	}
 	utxoCacheEviction(c)
+	// a received block is refused for its size only above the chain's MAXIMAL BLOCK size - the producer fills 80% of
+	// that with pool transactions and adds award, header and merkle tree on top: a receiver that applies the
+	// producer's transaction budget to the whole block refuses every full block
+	if pb := c.Fn(miner + "(*Miner).ProcBlock"); pb != nil {
+		c.CondCount(pb, "(state.(*State).GetMaxBlockSize(p0.ctx.State) < proto.Size(p2))", 1, "the size of a received block is compared with the maximal block size")
+		c.CondCount(pb, "(* < proto.Size(p2))", 1, "and with nothing else")
+	}
 	keyLockProtocol(c)
 	if pk := c.Fn(miner + "(*Miner).packBlock"); pk != nil {
 		c.ArgIs(pk, "Miner.getAwardTx", 1, "p2", 1, "award computed for the height that is packed")
